@@ -10,6 +10,10 @@ The space is cut into sub-universes, each enumerated completely:
 
   BOOL  all predicates of depth <= 2 over the atoms, All/Any with three operands, depth-3 combinations of
         case-sensitive and case-insensitive leaves  x  all node values (str, int, "", 0)     (interpreted vs compiled)
+        predicate-construction histories: base = All/Any of two atoms, its meaning recorded (interpreted, compiled),
+        then base & c, base | c, c & base, c | base, ~base, base & base, base | base and expressions in which the
+        base OBJECT occurs twice (base | (base & c), ...) are built from it; base must keep its meaning (interpreted,
+        fresh compile, the earlier compiled function) and the derived predicate must mean what was written
   UA    forests <= 2 nodes, all 15 labels  x  every one-level query form over the large predicate set
   UF    forests 0..2 nodes, 12 falsy / boundary labels (name "", attributes 0, "", None, three mixed attributes,
         a matching attribute before a raising one)  x  one- and two-level queries built for them
@@ -856,10 +860,120 @@ def check_bool(b, v, impl=None):
     return out, raises, ref
 
 
+NOFEAT = {"caseless_predicate_on_nonstring": False, "under_not": False}
+DERIVE = ["and_right", "or_right", "and_left", "or_left", "not", "and_self", "or_self",
+          "shared_or_and", "shared_and_or", "shared_and_then_or", "shared_or_then_and"]
+
+
+def derived_expr(kind, base, c):
+    """The expression that is WRITTEN when a new predicate is built from the composite `base` (and a leaf `c`);
+    works on descriptors and on the real objects alike (descriptors are combined by _D)."""
+    if kind == "and_right":
+        return base & c
+    if kind == "or_right":
+        return base | c
+    if kind == "and_left":
+        return c & base
+    if kind == "or_left":
+        return c | base
+    if kind == "not":
+        return ~base
+    if kind == "and_self":
+        return base & base
+    if kind == "or_self":
+        return base | base
+    if kind == "shared_or_and":
+        return base | (base & c)            # one sub-expression object occurs twice
+    if kind == "shared_and_or":
+        return base & (base | c)
+    if kind == "shared_and_then_or":
+        return (base & c) | base
+    if kind == "shared_or_then_and":
+        return (base | c) & base
+    raise ValueError(kind)
+
+
+class _D(object):
+    """Descriptor algebra: the same python expression yields the descriptor of what was written."""
+    def __init__(self, d):
+        self.d = d
+
+    def __and__(self, o):
+        return _D(["and", self.d, o.d])
+
+    def __or__(self, o):
+        return _D(["or", self.d, o.d])
+
+    def __invert__(self):
+        return _D(["not", self.d])
+
+
+def _table(fn):
+    out = []
+    for v in VALUES:
+        try:
+            out.append(bool(fn(v)))
+        except Exception as ex:
+            out.append("raised %s" % type(ex).__name__)
+    return out
+
+
+def check_construct(case):
+    """Predicate-construction history: build `base`, record what it means (interpreted and compiled), build a new
+    predicate FROM it, then ask `base` again - interpreted, through a fresh compile and through the function compiled
+    earlier.  A predicate object keeps the meaning of the expression it was written as; the derived predicate means
+    the expression that was written, shared sub-expression objects included."""
+    out = []
+    bd, cd, kind = case["base"], case["c"], case["derive"]
+    base = mk_bool(bd)
+    c = mk_bool(cd)
+    early = base.to_pyfunc()
+    before_i = _table(base.test)
+    before_c = _table(early)
+    try:
+        derived = derived_expr(kind, base, c)
+    except Exception as ex:
+        return [("construct:derived-matches-written-expression", "a predicate", "raised %s" % type(ex).__name__, dict(NOFEAT))]
+    dd = derived_expr(kind, _D(bd), _D(cd)).d
+    after_i = _table(base.test)
+    try:
+        after_c = _table(base.to_pyfunc())
+    except Exception as ex:
+        after_c = "to_pyfunc raised %s" % type(ex).__name__
+    after_e = _table(early)
+    want = {"interpreted": before_i, "compiled": before_c, "compiled_earlier": before_c}
+    got = {"interpreted": after_i, "compiled": after_c, "compiled_earlier": after_e}
+    if got != want:
+        out.append(("construct:composite-unchanged-by-reuse", want, got, dict(NOFEAT, derive=kind)))
+    # the recorded meaning of base is the model's (non-raising values), so "unchanged" is anchored, not relative
+    for v, bi, bc in zip(VALUES, before_i, before_c):
+        if not M.any_leaf_raises(bd, v):
+            ref = M.eval_compiled(bd, v)
+            if bi != ref or bc != ref:
+                out.append(("construct:composite-unchanged-by-reuse", {"value": v, "model": ref},
+                            {"interpreted": bi, "compiled": bc}, dict(NOFEAT, derive=kind)))
+                break
+    # the derived predicate against the model of the written expression
+    try:
+        impl = (derived, derived.to_pyfunc())
+    except Exception as ex:
+        out.append(("construct:derived-matches-written-expression", "compiles", "to_pyfunc raised %s" % type(ex).__name__,
+                    dict(NOFEAT, derive=kind)))
+        return out
+    for v in VALUES:
+        for (cl, e, o, ft) in check_bool(dd, v, impl)[0]:
+            out.append(("construct:derived-matches-written-expression", {"value": v, "clause": cl, "expected": e}, o,
+                        dict(NOFEAT, derive=kind)))
+            return out
+    return out
+
+
 def check_case(case):
     kind = case.get("kind")
     if kind == "bool":
         return check_bool(case["pred"], case["value"])[0]
+    if kind == "construct":
+        return check_construct(case)
     if kind == "select":
         ctx = build_ctx(case["forest"], case["build"], case.get("order"))
         if ctx is None:
@@ -890,6 +1004,9 @@ def units(tier, seed):
     us.append({"u": "BOOL", "part": "small"})
     us.append({"u": "BOOL", "part": "nary"})
     us.append({"u": "BOOL", "part": "depth3"})
+    k = 4 if tier == "quick" else 8
+    for i in range(k):
+        us.append({"u": "BOOL", "part": "construct", "shard": i, "of": k})
     rows = 6 if tier == "quick" else 16
     for lo in range(0, len(s1), rows):
         us.append({"u": "BOOL", "part": "rows", "lo": lo, "hi": min(len(s1), lo + rows)})
@@ -921,7 +1038,7 @@ def units(tier, seed):
             us.append({"u": "UEP", "build": build, "fs": [i, n]})
     for build in ("entry", "multi", "nginx"):
         us.append({"u": "UD", "build": build})
-    n = 8 if tier == "quick" else 12
+    n = 8 if tier == "quick" else 10
     for i in range(n):
         us.append({"u": "UI", "fs": [i, n]})
     return us
@@ -946,6 +1063,31 @@ def _label_index(kind):
     return _LABIDX[kind]
 
 
+def run_construct_unit(unit, tier, res):
+    at = atoms(tier)
+    bases = [[op, x, y] for op in ("and", "or") for x in at for y in at]
+    n = 0
+    for bd in enumx.shard(bases, unit["shard"], unit["of"]):
+        for kind in DERIVE:
+            for cd in (at if kind not in ("not", "and_self", "or_self") else at[:1]):
+                case = {"kind": "construct", "base": bd, "c": cd, "derive": kind}
+                vio = check_construct(case)
+                n += 1
+                # non-trivial: the written derived expression and the base differ on some value
+                dd = derived_expr(kind, _D(bd), _D(cd)).d
+                tb = [M.eval_compiled(bd, v) for v in VALUES]
+                td = [M.eval_compiled(dd, v) for v in VALUES]
+                if tb != td:
+                    res.nontrivial += 1
+                res.outcomes.add("construct:%s:%s:%d:%d" % (kind, bd[0], sum(tb), sum(td)))
+                for (cl, e, o, ft) in vio:
+                    res.violation(cl, case, e, o, ft)
+                if n == 5:
+                    res.samples.append(case)
+    res.evals += n
+    res.stat("construct_histories", n)
+
+
 def run_bool_unit(unit, tier, res):
     at = atoms(tier)
     s1, n0 = depth2_binary_rows(at)
@@ -955,6 +1097,8 @@ def run_bool_unit(unit, tier, res):
         preds = nary(at)
     elif unit["part"] == "depth3":
         preds = depth3_spine(tier)
+    elif unit["part"] == "construct":
+        return run_construct_unit(unit, tier, res)
     else:
         preds = []
         for i in range(unit["lo"], unit["hi"]):
